@@ -1,3 +1,694 @@
-import ElfioVerif.Model.Writer
+/-
+C04 — saved files are structurally well-formed.
+
+The layout part of `elfio::save` is three passes over one file cursor
+(`layout_segments_and_their_sections` / `write_segment_data`, `layout_sections_without_segments`,
+`layout_section_table`).  The theorems below are the monotone cursor argument, for any number of
+sections and segments (induction over the member lists and the ordered segment list):
+
+  * `layoutLoose_disjoint`, `layoutLoose_aligned`   pass 3
+  * `wsd_monotone`                                   `write_segment_data`
+  * `layout_disjoint`                                the three passes of a successful `save`
+  * writer-domain rungs: see the second half of the file.
+
+No-wrap hypotheses (`looseNW`, `wsdLoopNW`, `layoutNW` — Lemmas/Layout.lean) are Bool-valued
+functions following the recursion of the pass: every cursor update `p ↦ p'` must satisfy
+`p.toNat ≤ p'.toNat` (for one 64-bit addition `p' = p + d` this is `p.toNat + d.toNat < 2^64`,
+`noWrap_iff`) and every offset stored in an ELF32 field must be `< 2^32`.
+-/
+import ElfioVerif.Lemmas.Layout
+import ElfioVerif.Lemmas.ValidateL
 namespace ElfioVerif.C04
+open ElfioVerif Gen
+
+/-- what the no-wrap functions demand of one cursor update -/
+theorem noWrap_iff (p d : BitVec 64) :
+    p.toNat ≤ (p + d).toNat ↔ p.toNat + d.toNat < 18446744073709551616 := bv_add_le_iff p d
+
+/-! ### pass 3: `layout_sections_without_segments` -/
+
+/-- Sections placed by `layout_sections_without_segments` (index ≠ 0): start at or after the
+    incoming cursor; their file range (for types that occupy file space) ends at or before the
+    outgoing cursor; of two placed sections the later one starts after the end of the earlier one;
+    sections inside a segment are unchanged; the cursor never decreases. -/
+theorem layoutLoose_disjoint (c : Cls) (segs : List Seg) (l : List SecBuf) (pos : BitVec 64)
+    (hnw : looseNW c segs l 0 pos = true) :
+    let r := layoutLoose c segs l 0 pos []
+    r.1.length = l.length ∧ pos.toNat ≤ r.2.toNat ∧
+    (∀ (k : Nat) (s : SecBuf), l[k]? = some s → withoutSegment segs k = false → r.1[k]? = some s) ∧
+    (∀ (k : Nat) (s : SecBuf), l[k]? = some s → withoutSegment segs k = true →
+      ∃ s', r.1[k]? = some s' ∧ SecBuf.Moved s s' ∧ s'.addr = s.addr ∧
+        (s.index ≠ 0 → pos.toNat ≤ s'.offset.toNat ∧ s'.offset.toNat ≤ r.2.toNat ∧
+          (lsws_occupies s.stype = true → s'.endN ≤ r.2.toNat))) ∧
+    (∀ (k1 k2 : Nat) (a b a' b' : SecBuf), k1 < k2 → l[k1]? = some a → l[k2]? = some b →
+      withoutSegment segs k1 = true → withoutSegment segs k2 = true →
+      r.1[k1]? = some a' → r.1[k2]? = some b' → a.index ≠ 0 → b.index ≠ 0 →
+      lsws_occupies a.stype = true → a'.endN ≤ b'.offset.toNat) := by
+  intro r
+  have hr : r = ((looseSpec c segs l 0 pos).1, (looseSpec c segs l 0 pos).2) := by
+    show layoutLoose c segs l 0 pos [] = _
+    rw [layoutLoose_eq_spec]; simp
+  obtain ⟨f1, f2, f3, f4, f5⟩ := looseSpec_facts c segs l 0 pos hnw
+  simp only [Nat.zero_add] at f3 f4 f5
+  rw [hr]
+  refine ⟨f1, f2, f3, ?_, ?_⟩
+  · intro k s hk hw
+    obtain ⟨s', h1, h2, h3, -, h5⟩ := f4 k s hk hw
+    exact ⟨s', h1, h2, h3, fun hi => ⟨(h5 hi).1, (h5 hi).2.1, (h5 hi).2.2.2⟩⟩
+  · intro k1 k2 a b a' b' hlt h1 h2 hw1 hw2 ha' hb' hia hib ho
+    exact (f5 k1 k2 a b a' b' hlt h1 h2 hw1 hw2 ha' hb' hia hib).2 ho
+
+/-- every section placed by `layout_sections_without_segments` starts at a multiple of its alignment -/
+theorem layoutLoose_aligned (c : Cls) (segs : List Seg) (l : List SecBuf) (pos : BitVec 64)
+    (hnw : looseNW c segs l 0 pos = true) (k : Nat) (s s' : SecBuf)
+    (hk : l[k]? = some s) (hw : withoutSegment segs k = true) (hi : s.index ≠ 0)
+    (hk' : (layoutLoose c segs l 0 pos []).1[k]? = some s') :
+    s'.offset.toNat % (max s.addrAlign.toNat 1) = 0 := by
+  rw [layoutLoose_eq_spec] at hk'
+  simp only [List.reverse_nil, List.nil_append] at hk'
+  obtain ⟨-, -, -, f4, -⟩ := looseSpec_facts c segs l 0 pos hnw
+  simp only [Nat.zero_add] at f4
+  obtain ⟨t, h1, -, -, -, h5⟩ := f4 k s hk hw
+  rw [hk'] at h1; simp only [Option.some.injEq] at h1; subst h1
+  exact (h5 hi).2.2.1
+
+/-- non-vacuity: `.text`-like section (align 16, 5 bytes) and a string table (align 1) after a
+    64-byte header: placed at 64 and 69 -/
+example :
+    let s1 : SecBuf := { SecBuf.fresh .c64 1 with size := 5, addrAlign := 16, index := 1 }
+    let s2 : SecBuf := { SecBuf.fresh .c64 3 with size := 7, addrAlign := 1, index := 2 }
+    looseNW .c64 [] [SecBuf.fresh .c64 0, s1, s2] 0 64 = true ∧
+    ((layoutLoose .c64 [] [SecBuf.fresh .c64 0, s1, s2] 0 64 []).1.map (·.offset)) = [0, 64, 69] := by
+  decide
+
+/-! ### pass 2: `write_segment_data` -/
+
+/-- `write_segment_data` (any member list, any state satisfying the invariant `LayInv`):
+    the cursor never decreases; `gen` only gains `true`s; already generated members are not
+    re-placed (their section is unchanged); every member generated in this call that occupies file
+    space is placed between the cursor before and the cursor after; all sections keep every field
+    but `addr`/`offset`; and the invariant (placed sections pairwise disjoint, inside
+    `[lo, cursor)`) is maintained. -/
+theorem wsd_monotone (c : Cls) (g : Seg) (segStart : BitVec 64) (l : List (BitVec 16)) (st st' : WsdSt)
+    (lo : Nat) (hinv : LayInv lo st.lay) (hnw : wsdLoopNW c g segStart l st = true)
+    (h : wsdLoop c g segStart l st = .ok (some st')) :
+    st.lay.pos.toNat ≤ st'.lay.pos.toNat ∧
+    (∀ (k : Nat), st.lay.gen[k]? = some true → st'.lay.gen[k]? = some true) ∧
+    (∀ (k : Nat) (s : SecBuf), st.lay.gen[k]? = some true → st.lay.secs[k]? = some s → st'.lay.secs[k]? = some s) ∧
+    (∀ (k : Nat) (s' : SecBuf), st.lay.gen[k]? ≠ some true → st'.lay.gen[k]? = some true →
+      st'.lay.secs[k]? = some s' → s'.Occ →
+      st.lay.pos.toNat ≤ s'.offset.toNat ∧ s'.endN ≤ st'.lay.pos.toNat) ∧
+    (∀ (k : Nat) (s : SecBuf), st.lay.secs[k]? = some s → ∃ s', st'.lay.secs[k]? = some s' ∧ SecBuf.Moved s s') ∧
+    LayInv lo st'.lay := by
+  obtain ⟨hi, hs⟩ := wsdLoop_inv c g segStart l st st' lo hinv hnw h
+  exact ⟨hs.mono, hs.genMono, fun k s hg => hs.frame k s hg, fun k s' hn hg => hs.fresh k s' hn hg, hs.moved, hi⟩
+
+/-! ### the three passes of `save` -/
+
+theorem save_cursor0_toNat (a b c : BitVec 16) :
+    (save_cursor0 a b c).toNat = a.toNat + b.toNat * c.toNat := by
+  have ha := a.isLt; have hb := b.isLt; have hc := c.isLt
+  have hm : b.toNat * c.toNat < 65536 * 65536 := Nat.mul_lt_mul'' hb hc
+  simp only [save_cursor0, BitVec.toNat_add, BitVec.toNat_mul, BitVec.toNat_setWidth, Nat.reducePow]
+  simp only [Nat.reduceMul] at hm
+  rw [Nat.mod_eq_of_lt (show a.toNat < 18446744073709551616 by omega),
+      Nat.mod_eq_of_lt (show b.toNat < 18446744073709551616 by omega),
+      Nat.mod_eq_of_lt (show c.toNat < 18446744073709551616 by omega),
+      Nat.mod_eq_of_lt (show b.toNat * c.toNat < 18446744073709551616 by omega)]
+  omega
+
+/-- **Disjointness of everything `save` writes.**  For a successful `save` (any object, any number
+    of sections and segments; no writer-domain hypothesis): with `eh = e_ehsize`,
+    `pht = e_phentsize * e_phnum` and `shoff` the section header table offset,
+
+      ELF header `[0, eh)`  <  program header table `[eh, eh + pht)`  ≤  every non-empty
+      file-occupying section `[offset, offset+size)`  ≤  `shoff`,  `shoff % 16 = 0`,
+
+    and any two such sections are disjoint.  Every section is placed — inside a segment it is
+    generated by `write_segment_data` (`get_ordered_segments` returns a permutation,
+    `orderedSegments_perm`), otherwise by `layout_sections_without_segments` (`placed_all`).
+    Hypotheses: fewer than 2^16 sections; a section that occupies file space does not carry
+    index 0 (`set_offset` is skipped for index 0; true when section 0 is the SHT_NULL section);
+    no wrap-around (`layoutNW`).
+
+    Segments whose offset was initialised to 0 (`lseg_offset0`) need no special treatment here:
+    they change `seg_start_pos` and the initial sizes, but their members are still placed at the
+    running cursor.  What they affect is the *segment* range (it starts at file offset 0 and
+    contains the headers), which concerns `member_inside` below, not disjointness. -/
+theorem layout_disjoint (o : Obj) (os : OStream) (r : SaveRes) (hdr : Bytes)
+    (hs : save o os = .ok r) (hok : r.ok = true) (hh : o.hdr = some hdr)
+    (hn : o.secs.length < 65536)
+    (h0 : ∀ (i : Nat) (s : SecBuf), o.secs[i]? = some s → s.Occ → s.index ≠ 0)
+    (hnw : layoutNW (preSave o) hdr = true) :
+    let eh := (Hdr.e_ehsize o.cls o.enc (saveHdr0 o hdr)).toNat
+    let pht := (Hdr.e_phentsize o.cls o.enc (saveHdr0 o hdr)).toNat * (Hdr.e_phnum o.cls o.enc (saveHdr0 o hdr)).toNat
+    let shoff := r.obj.curPos.toNat
+    (∀ (k : Nat) (s : SecBuf), r.obj.secs[k]? = some s → s.Occ →
+      eh + pht ≤ s.offset.toNat ∧ s.endN ≤ shoff) ∧
+    (∀ (k1 k2 : Nat) (a b : SecBuf), k1 ≠ k2 → r.obj.secs[k1]? = some a → r.obj.secs[k2]? = some b →
+      a.Occ → b.Occ → a.endN ≤ b.offset.toNat ∨ b.endN ≤ a.offset.toNat) ∧
+    eh + pht < shoff ∧ shoff % 16 = 0 := by
+  obtain ⟨hdr', res, hh', hl, hsegs, hcur, hsecs⟩ := save_layout o os r hs hok
+  rw [hh] at hh'; simp only [Option.some.injEq] at hh'; subst hh'
+  have hn' : (preSave o).secs.length < 65536 := by rw [preSave_length]; exact hn
+  have h0' := preSave_h0 o h0
+  obtain ⟨hP, -, hlt, h16⟩ := layout_packed (preSave o) hdr res hl hnw hn' h0'
+  have hP' : Packed res.pos0.toNat res.pos3.toNat r.obj.secs
+      (fun k => res.lay2.Gen k ∨ withoutSegment res.segs k = true) := by
+    apply hP.of_hdrOf
+    rw [hsecs, residentForSave_hdr]; simp
+  have hall := placed_all (preSave o) hdr res hl hnw hn' h0'
+  obtain ⟨hhdr0, hpos0, -⟩ := layoutOf_parts (preSave o) hdr res hl
+  have hp0 : res.pos0.toNat = (Hdr.e_ehsize o.cls o.enc res.hdr0).toNat +
+      (Hdr.e_phentsize o.cls o.enc res.hdr0).toNat * (Hdr.e_phnum o.cls o.enc res.hdr0).toNat := by
+    rw [hpos0, save_cursor0_toNat]; rfl
+  rw [hhdr0, saveHdr0_preSave] at hp0
+  simp only [hcur]
+  refine ⟨?_, ?_, ?_, h16⟩
+  · intro k s hk ho
+    have := hP'.inR k s hk (hall k) ho
+    omega
+  · intro k1 k2 a b hne h1 h2 ha hb
+    exact hP'.disj k1 k2 a b hne h1 h2 (hall k1) (hall k2) ha hb
+  · have := hP'.le; omega
+
+/-- **Alignment.**  After a successful `save`, every section that was given no explicit address
+    (index ≠ 0, not SHT_NULL-typed) starts at a multiple of its alignment (`max(sh_addralign, 1)`),
+    whether it was placed as a segment member (alignment gap of `write_segment_data`) or by
+    `layout_sections_without_segments`. -/
+theorem layout_aligned (o : Obj) (os : OStream) (r : SaveRes) (hdr : Bytes)
+    (hs : save o os = .ok r) (hok : r.ok = true) (hh : o.hdr = some hdr)
+    (hn : o.secs.length < 65536)
+    (h0 : ∀ (i : Nat) (s : SecBuf), o.secs[i]? = some s → s.Occ → s.index ≠ 0)
+    (hnw : layoutNW (preSave o) hdr = true)
+    (k : Nat) (s0 s : SecBuf) (h0k : o.secs[k]? = some s0) (hk : r.obj.secs[k]? = some s)
+    (ha : s0.addrSet = false) (hnn : s0.stype ≠ BitVec.ofNat 32 SHT_NULL) (hi : s0.index ≠ 0) :
+    s.offset.toNat % (max s0.addrAlign.toNat 1) = 0 := by
+  obtain ⟨hdr', res, hh', hl, -, -, hsecs⟩ := save_layout o os r hs hok
+  rw [hh] at hh'; simp only [Option.some.injEq] at hh'; subst hh'
+  have hn' : (preSave o).secs.length < 65536 := by rw [preSave_length]; exact hn
+  have h0' := preSave_h0 o h0
+  have he : r.obj.secs.map hdrOf = res.secs.map hdrOf := by
+    rw [hsecs, residentForSave_hdr]; simp
+  obtain ⟨s', hs', hhs⟩ := hdrOf_getElem? he k s hk
+  -- the section at position `k` when the layout starts has the same header fields as `s0`
+  obtain ⟨t0, ht0, hht⟩ : ∃ t0, (preSave o).secs[k]? = some t0 ∧ hdrOf t0 = hdrOf s0 := by
+    have h1 : ((preSave o).secs.map hdrOf)[k]? = some (hdrOf s0) := by
+      rw [preSave_hdr, List.getElem?_map, h0k]; rfl
+    rw [List.getElem?_map] at h1
+    cases hq : (preSave o).secs[k]? with
+    | none => rw [hq] at h1; exact nomatch h1
+    | some t0 => rw [hq] at h1; exact ⟨t0, rfl, by simpa using h1⟩
+  simp only [hdrOf, Prod.mk.injEq] at hht
+  obtain ⟨-, -, e3, e4, -, -, e7, e8⟩ := hht
+  have := layout_aligned_res (preSave o) hdr res hl hnw hn' h0' k t0 s' ht0 hs'
+    (by rw [e8]; exact ha) (by rw [e3]; exact hnn) (by rw [e4]; exact hi)
+  simp only [hdrOf, Prod.mk.injEq] at hhs
+  rw [← hhs.1, ← e7]; exact this
+
+/-! ### writer domain: one segment of `layout_segments_and_their_sections`
+
+`lay`, `g`: layout state and segment (after `calc_segment_alignment`) when the segment's turn comes;
+`lay'`, `g'`: afterwards.  "Generated by this segment": `lay.gen[k] ≠ true`, `lay'.gen[k] = true`.
+Hypotheses: the invariant `LayInv` (which the previous segments maintain, `wsd_monotone`), no wrap
+(`segNW`) and the writer-domain side conditions `segDom cov ins` (Lemmas/Layout.lean):
+every non-NULL member counts towards the memory size (SHF_ALLOC, not a TLS NOBITS section outside
+PT_TLS), the memory size neither wraps nor exceeds the class's field, writer-assigned addresses
+fit the field; `cov`: a not yet generated member with an explicit address is a non-empty
+file-occupying section (`NobitsAtCursor`, excludes F14); `ins`: a not yet generated NOBITS member
+needs no alignment gap (cf. F13). -/
+
+/-- the segment's memory size covers its file size -/
+theorem memsz_ge_filesz (c : Cls) (hdrPhoff : BitVec 64) (phentsize phnum : BitVec 16)
+    (lay lay' : Layout) (g g' : Seg) (lo : Nat) (hinv : LayInv lo lay)
+    (hnw : segNW c hdrPhoff phentsize phnum lay g = true)
+    (hdom : segDom false false c hdrPhoff phentsize phnum lay g = true)
+    (h : layoutSegment c hdrPhoff phentsize phnum lay g = .ok (some (lay', g'))) :
+    g'.filesz.toNat ≤ g'.memsz.toNat :=
+  (layoutSegment_dom false false c hdrPhoff phentsize phnum lay lay' g g' lo hinv hnw hdom h).1
+
+/-- a file-occupying member generated by the segment is at the same distance from the segment start
+    in the file as in memory (64-bit arithmetic, exact) -/
+theorem member_equidistant (c : Cls) (hdrPhoff : BitVec 64) (phentsize phnum : BitVec 16)
+    (lay lay' : Layout) (g g' : Seg) (lo : Nat) (hinv : LayInv lo lay)
+    (hnw : segNW c hdrPhoff phentsize phnum lay g = true)
+    (hdom : segDom false false c hdrPhoff phentsize phnum lay g = true)
+    (h : layoutSegment c hdrPhoff phentsize phnum lay g = .ok (some (lay', g')))
+    (k : Nat) (s' : SecBuf) (hng : lay.gen[k]? ≠ some true) (hg : lay'.gen[k]? = some true)
+    (hs : lay'.secs[k]? = some s') (ho : s'.Occ) :
+    s'.offset - g'.offset = s'.addr - g'.vaddr :=
+  (layoutSegment_dom false false c hdrPhoff phentsize phnum lay lay' g g' lo hinv hnw hdom h).2.1 k s' hng hg hs ho
+
+/-- a segment that starts a fresh run (not the PHDR / offset-0 special cases, first member not yet
+    generated): `p_offset ≡ p_vaddr (mod p_align)`.  The 64-bit wrap in
+    `adjustment = req_page_alignment − cur_page_alignment` is harmless: `(align + adjustment) % align`
+    is the same residue (alignment ≤ 2^63, true for every power of two). -/
+theorem segment_congruent (c : Cls) (hdrPhoff : BitVec 64) (phentsize phnum : BitVec 16)
+    (lay lay' : Layout) (g g' : Seg) (lo : Nat) (hinv : LayInv lo lay)
+    (hnw : segNW c hdrPhoff phentsize phnum lay g = true)
+    (hdom : segDom false false c hdrPhoff phentsize phnum lay g = true)
+    (h : layoutSegment c hdrPhoff phentsize phnum lay g = .ok (some (lay', g')))
+    (hfresh : segFresh lay g) (hal : g.align.toNat ≤ 9223372036854775808) :
+    g'.offset.toNat % (max g'.align.toNat 1) = g'.vaddr.toNat % (max g'.align.toNat 1) :=
+  ((layoutSegment_dom false false c hdrPhoff phentsize phnum lay lay' g g' lo hinv hnw hdom h).2.2 hfresh).1 hal
+
+/-- the memory size covers every (non-NULL) member generated by a segment that starts a fresh run —
+    under the side condition `cov` (F14): no explicit address on a NOBITS or empty member -/
+theorem memsz_covers (c : Cls) (hdrPhoff : BitVec 64) (phentsize phnum : BitVec 16)
+    (lay lay' : Layout) (g g' : Seg) (lo : Nat) (hinv : LayInv lo lay)
+    (hnw : segNW c hdrPhoff phentsize phnum lay g = true)
+    (hdom : segDom true false c hdrPhoff phentsize phnum lay g = true)
+    (h : layoutSegment c hdrPhoff phentsize phnum lay g = .ok (some (lay', g')))
+    (hfresh : segFresh lay g)
+    (k : Nat) (s' : SecBuf) (hng : lay.gen[k]? ≠ some true) (hg : lay'.gen[k]? = some true)
+    (hs : lay'.secs[k]? = some s') (hnn : s'.stype ≠ BitVec.ofNat 32 SHT_NULL) :
+    (s'.addr - g'.vaddr).toNat + s'.size.toNat ≤ g'.memsz.toNat :=
+  ((layoutSegment_dom true false c hdrPhoff phentsize phnum lay lay' g g' lo hinv hnw hdom h).2.2 hfresh).2.1
+    rfl k s' hng hg hs hnn
+
+/-- a file-occupying member generated by a segment that starts a fresh run lies inside the
+    segment's file range — under the side condition `ins`: no alignment gap before a NOBITS member -/
+theorem member_inside (c : Cls) (hdrPhoff : BitVec 64) (phentsize phnum : BitVec 16)
+    (lay lay' : Layout) (g g' : Seg) (lo : Nat) (hinv : LayInv lo lay)
+    (hnw : segNW c hdrPhoff phentsize phnum lay g = true)
+    (hdom : segDom false true c hdrPhoff phentsize phnum lay g = true)
+    (h : layoutSegment c hdrPhoff phentsize phnum lay g = .ok (some (lay', g')))
+    (hfresh : segFresh lay g)
+    (k : Nat) (s' : SecBuf) (hng : lay.gen[k]? ≠ some true) (hg : lay'.gen[k]? = some true)
+    (hs : lay'.secs[k]? = some s') (ho : s'.Occ) :
+    g'.offset.toNat ≤ s'.offset.toNat ∧ s'.endN ≤ g'.offset.toNat + g'.filesz.toNat :=
+  ((layoutSegment_dom false true c hdrPhoff phentsize phnum lay lay' g g' lo hinv hnw hdom h).2.2 hfresh).2.2
+    rfl k s' hng hg hs ho
+
+/-! ### writer domain, flat objects: the segments of the saved object
+
+`layoutDomB cov ins sel` (Lemmas/Layout.lean) demands at the turn of every segment whose index is
+selected by `sel` (all of them for a flat object; the enclosing, non-nested ones otherwise):
+`segDom cov ins`; no member of the segment has been generated before its step (`segFlat`:
+the member lists of the segments are disjoint and duplicate-free — no nested segments); a segment
+with members is neither the PHDR nor the offset-0 special case.  Segment indices are distinct
+(`save` puts the laid out segments back by index). -/
+
+/-- the final sections and the sections of the layout agree on every header field the layout
+    theorems talk about -/
+theorem save_secs_hdr (o : Obj) (os : OStream) (r : SaveRes) (hdr : Bytes)
+    (hs : save o os = .ok r) (hok : r.ok = true) (hh : o.hdr = some hdr) :
+    ∃ res, layoutOf (preSave o) hdr = .ok (some res) ∧ r.obj.segs = res.segs ∧ r.obj.curPos = res.shoff ∧
+      r.obj.secs.map hdrOf = res.secs.map hdrOf := by
+  obtain ⟨hdr', res, hh', hl, hsegs, hcur, hsecs⟩ := save_layout o os r hs hok
+  rw [hh] at hh'; simp only [Option.some.injEq] at hh'; subst hh'
+  exact ⟨res, hl, hsegs, hcur, by rw [hsecs, residentForSave_hdr]; simp⟩
+
+/-- **The segments of the saved object** (writer domain).  For every selected segment `g` of the
+    object left by a successful `save` (`sel g.index`; in a flat object: every segment):
+    * `p_memsz ≥ p_filesz`;
+    * if it has members (and `p_align ≤ 2^63`): `p_offset ≡ p_vaddr (mod max(p_align,1))`;
+    * every member `s` that occupies file space is at the same distance from the segment start in
+      file and memory; with `ins`: it lies inside `[p_offset, p_offset + p_filesz)`;
+      with `cov` (excludes F14): `p_memsz` covers every non-NULL member. -/
+theorem save_segments (cov ins : Bool) (o : Obj) (os : OStream) (r : SaveRes) (hdr : Bytes)
+    (hs : save o os = .ok r) (hok : r.ok = true) (hh : o.hdr = some hdr)
+    (hn : o.secs.length < 65536)
+    (h0 : ∀ (i : Nat) (s : SecBuf), o.secs[i]? = some s → s.Occ → s.index ≠ 0)
+    (hnw : layoutNW (preSave o) hdr = true) (hnd : (o.segs.map (·.index)).Nodup)
+    (sel : Nat → Bool) (hdom : layoutDomB cov ins sel (preSave o) hdr = true)
+    (g : Seg) (hg : g ∈ r.obj.segs) (hsel : sel g.index = true) :
+    g.filesz.toNat ≤ g.memsz.toNat ∧
+    (g.secs ≠ [] → g.align.toNat ≤ 9223372036854775808 →
+      g.offset.toNat % (max g.align.toNat 1) = g.vaddr.toNat % (max g.align.toNat 1)) ∧
+    (∀ idx ∈ g.secs, ∀ (s : SecBuf), r.obj.secs[idx.toNat]? = some s →
+      (s.Occ → s.offset - g.offset = s.addr - g.vaddr) ∧
+      (ins = true → s.Occ → g.offset.toNat ≤ s.offset.toNat ∧ s.endN ≤ g.offset.toNat + g.filesz.toNat) ∧
+      (cov = true → s.stype ≠ BitVec.ofNat 32 SHT_NULL →
+        (s.addr - g.vaddr).toNat + s.size.toNat ≤ g.memsz.toNat)) := by
+  obtain ⟨res, hl, hsegs, -, he⟩ := save_secs_hdr o os r hdr hs hok hh
+  rw [hsegs] at hg
+  have hn' : (preSave o).secs.length < 65536 := by rw [preSave_length]; exact hn
+  have h0' := preSave_h0 o h0
+  obtain ⟨f1, f2, f3, -⟩ := final_segments cov ins (preSave o) hdr res hl hnw hn' h0' hnd sel hdom g hg hsel
+  refine ⟨f1, f2, ?_⟩
+  intro idx hidx s hk
+  obtain ⟨s', hs', hhs⟩ := hdrOf_getElem? he idx.toNat s hk
+  obtain ⟨g1, g2, g3⟩ := f3 idx hidx s' hs'
+  have hocc := occ_of_hdrOf hhs
+  simp only [hdrOf, Prod.mk.injEq] at hhs
+  obtain ⟨e1, e2, e3, -, e5, -, -⟩ := hhs
+  unfold SecBuf.endN at *
+  rw [← e1, ← e2, ← e3, ← e5]
+  exact ⟨fun ho => g1 (hocc.1 ho), fun hi ho => g2 hi (hocc.1 ho), g3⟩
+
+/-- writer-domain side conditions `segDom false false` at every turn (no flatness demanded) -/
+def layoutDomAllB (o : Obj) (h : Bytes) : Bool :=
+  match layoutOf o h with
+  | .ok (some res) =>
+    segsAllB (fun lay g => segDom false false o.cls (Hdr.e_phoff o.cls o.enc res.hdr0)
+        (Hdr.e_phentsize o.cls o.enc res.hdr0) (Hdr.e_phnum o.cls o.enc res.hdr0) lay g)
+      o.cls (Hdr.e_phoff o.cls o.enc res.hdr0) (Hdr.e_phentsize o.cls o.enc res.hdr0)
+      (Hdr.e_phnum o.cls o.enc res.hdr0) res.ordered (lay0Of o res.pos0)
+  | _ => true
+
+/-- **`p_memsz ≥ p_filesz` for every segment of the saved object**, nested segments included
+    (no flatness hypothesis: the running file size never exceeds the running memory size). -/
+theorem save_memsz_ge_filesz (o : Obj) (os : OStream) (r : SaveRes) (hdr : Bytes)
+    (hs : save o os = .ok r) (hok : r.ok = true) (hh : o.hdr = some hdr)
+    (hn : o.secs.length < 65536)
+    (h0 : ∀ (i : Nat) (s : SecBuf), o.secs[i]? = some s → s.Occ → s.index ≠ 0)
+    (hnw : layoutNW (preSave o) hdr = true) (hnd : (o.segs.map (·.index)).Nodup)
+    (hdom : layoutDomAllB (preSave o) hdr = true) (g : Seg) (hg : g ∈ r.obj.segs) :
+    g.filesz.toNat ≤ g.memsz.toNat := by
+  obtain ⟨res, hl, hsegs, -, -⟩ := save_secs_hdr o os r hdr hs hok hh
+  rw [hsegs] at hg
+  have hn' : (preSave o).secs.length < 65536 := by rw [preSave_length]; exact hn
+  have h0' := preSave_h0 o h0
+  obtain ⟨t, ht, rfl⟩ := final_segs_turn (preSave o) hdr res hl hnw hn' h0' hnd g hg
+  obtain ⟨-, -, e3⟩ := layoutOf_trace (preSave o) hdr res hl hnw hn' h0'
+  obtain ⟨f1, f2, f3, -, -, -⟩ := e3 t ht
+  unfold layoutDomAllB at hdom
+  rw [hl] at hdom
+  have hsd := segsAllB_trace _ _ _ _ _ _ _ hdom t ht
+  exact (layoutSegment_dom false false _ _ _ _ t.lay t.lay' t.g t.g' _ f3 f2 hsd f1).1
+
+/-- **What `validate` needs** (C20): the object left by a successful `save` of a flat writer-domain
+    object whose SHT_NULL-typed sections are empty and whose PT_LOAD segments (with file size > 0)
+    are among the selected, non-nested ones satisfies `LayoutOk` — file ranges of all
+    non-empty non-NOBITS sections are pairwise disjoint without wrap-around, and the PROGBITS
+    section containing the first file byte of a PT_LOAD segment with file size > 0 is a member of
+    that segment at the same distance in file and memory. -/
+theorem save_layoutOk (o : Obj) (os : OStream) (r : SaveRes) (hdr : Bytes)
+    (hs : save o os = .ok r) (hok : r.ok = true) (hh : o.hdr = some hdr)
+    (hn : o.secs.length < 65536)
+    (h0 : ∀ (i : Nat) (s : SecBuf), o.secs[i]? = some s → s.Occ → s.index ≠ 0)
+    (hnull0 : ∀ s ∈ o.secs, s.stype = BitVec.ofNat 32 SHT_NULL → s.size = 0)
+    (hnw : layoutNW (preSave o) hdr = true) (hnd : (o.segs.map (·.index)).Nodup)
+    (sel : Nat → Bool) (hdom : layoutDomB false false sel (preSave o) hdr = true)
+    (hsel : ∀ g ∈ r.obj.segs, g.stype = BitVec.ofNat 32 PT_LOAD → 0 < g.filesz.toNat → sel g.index = true) :
+    LayoutOk r.obj := by
+  obtain ⟨hin, hdisj, hlt, -⟩ := layout_disjoint o os r hdr hs hok hh hn h0 hnw
+  have hn' : (preSave o).secs.length < 65536 := by rw [preSave_length]; exact hn
+  have h0' := preSave_h0 o h0
+  have hnull : ∀ s ∈ r.obj.secs, s.stype = BitVec.ofNat 32 SHT_NULL → s.size = 0 := by
+    intro s hm he
+    obtain ⟨res, hl, -, -, hmap⟩ := save_secs_hdr o os r hdr hs hok hh
+    obtain ⟨k, hk⟩ := List.getElem?_of_mem hm
+    obtain ⟨s', hs', hhs⟩ := hdrOf_getElem? hmap k s hk
+    obtain ⟨s0, hs0, hm0⟩ := final_orig (preSave o) hdr res hl hnw hn' h0' k s' hs'
+    obtain ⟨t0, ht0, hht⟩ := hdrOf_getElem? (preSave_hdr o) k s0 hs0
+    simp only [hdrOf, Prod.mk.injEq] at hhs hht
+    rw [← hhs.2.1, hm0.size, ← hht.2.1]
+    apply hnull0 t0 (List.mem_of_getElem? ht0)
+    rw [hht.2.2.1, ← hm0.stype, hhs.2.2.1]; exact he
+  have hocc : ∀ s ∈ r.obj.secs, s.stype ≠ BitVec.ofNat 32 SHT_NOBITS → 0 < s.size.toNat → s.Occ := by
+    intro s hm h1 h2
+    refine ⟨h1, fun e => ?_, fun e => ?_⟩
+    · rw [hnull s hm e] at h2; exact absurd h2 (by decide)
+    · rw [e] at h2; exact absurd h2 (by decide)
+  have hsh := r.obj.curPos.isLt
+  refine ⟨?_, ?_, ?_⟩
+  · intro s hm h1 h2
+    obtain ⟨k, hk⟩ := List.getElem?_of_mem hm
+    have := (hin k s hk (hocc s hm h1 h2)).2
+    unfold SecBuf.endN at this; omega
+  · intro i j a b hij hi hj hta htb hsa hsb _ _
+    have ha := hocc a (List.mem_of_getElem? hi) hta hsa
+    have hb := hocc b (List.mem_of_getElem? hj) htb hsb
+    have := hdisj i j a b (by omega) hi hj ha hb
+    unfold RangesIntersect SecBuf.endN at *
+    omega
+  · intro g hg hload hfs s hm hpb h1 h2
+    obtain ⟨res, hl, hsegs, -, he⟩ := save_secs_hdr o os r hdr hs hok hh
+    have hsg := hsel g hg hload hfs
+    rw [hsegs] at hg
+    obtain ⟨-, -, -, f4⟩ := final_segments false false (preSave o) hdr res hl hnw hn' h0' hnd sel hdom g hg hsg
+    obtain ⟨k, hk⟩ := List.getElem?_of_mem hm
+    obtain ⟨s', hs', hhs⟩ := hdrOf_getElem? he k s hk
+    have hso : s.Occ := hocc s hm (by rw [hpb]; decide) (by omega)
+    have hph : lseg_is_phdr g.stype (BitVec.ofNat 16 g.secs.length) = false := by
+      rw [hload]; simp [lseg_is_phdr]; intro hc; exact absurd hc (by decide)
+    have hocc' := occ_of_hdrOf hhs
+    simp only [hdrOf, Prod.mk.injEq] at hhs
+    obtain ⟨e1, e2, -, -, e5, -, -⟩ := hhs
+    have := f4 hfs hph k s' hs' (hocc'.1 hso) (by rw [e1]; exact h1) (by unfold SecBuf.endN; rw [e1, e2]; exact h2)
+    rw [e1, e5] at this
+    bv_omega
+
+/-! ### the ranges lie inside the file -/
+
+/-- **Everything `save` laid out lies inside the saved stream.**  For a successful `save` of an
+    object with at least one section whose header buffer has the full length `sizeof(Ehdr)` (as
+    `create` and `load` allocate it) and whose section header table offset is below 2^63 (`streamoff` is signed) and fits the class's
+    `e_shoff`: the stream content reaches the section header table offset — hence the end of the
+    ELF header, of the program header table and of every non-empty file-occupying section
+    (`layout_disjoint`) — and the end of every section header record.  (`adjust_stream_size`
+    zero-fills up to the position it seeks to.) -/
+theorem file_covers (o : Obj) (os : OStream) (r : SaveRes) (hdr : Bytes)
+    (hs : save o os = .ok r) (hok : r.ok = true) (hh : o.hdr = some hdr)
+    (hn : o.secs.length < 65536) (hne : o.secs ≠ [])
+    (h0 : ∀ (i : Nat) (s : SecBuf), o.secs[i]? = some s → s.Occ → s.index ≠ 0)
+    (hnw : layoutNW (preSave o) hdr = true)
+    (hlen : ehdrSize o.cls ≤ hdr.length) (hfit : fitsB o.cls r.obj.curPos = true)
+    (hsh : r.obj.curPos.toNat < 9223372036854775808) :
+    r.obj.curPos.toNat ≤ r.os.content.length ∧
+    (∀ (k : Nat) (s : SecBuf), r.obj.secs[k]? = some s → s.Occ → s.endN ≤ r.os.content.length) ∧
+    (∃ hdrF, r.obj.hdr = some hdrF ∧ Hdr.e_shoff o.cls o.enc hdrF = r.obj.curPos ∧
+      ∀ b ∈ r.obj.secs,
+        r.obj.curPos.toNat + (Hdr.e_shentsize o.cls o.enc hdrF).toNat * b.index + (encodeShdr o.cls o.enc b).length ≤
+          r.os.content.length) := by
+  obtain ⟨hdr', hdrF, hh', hF, hFeq, hnf, hos, hfin⟩ := save_stream o os r hs hok
+  rw [hh] at hh'; simp only [Option.some.injEq] at hh'; subst hh'
+  -- the header reads back the table offset
+  have hsho : Hdr.e_shoff o.cls o.enc hdrF = r.obj.curPos := by
+    rw [hFeq]
+    exact e_shoff_set_shoff _ _ _ _ (by rw [saveHdr0_length (preSave o) _ hlen]; exact hlen) hfit
+  -- the stream after the header write is well formed
+  have hw1 : ((os.seekp (trApply o.trans 0)).write hdrF).LayWF := by
+    have h1 := OStream.lay_write_fail _ _ hnf
+    obtain ⟨-, w, -, -, -⟩ := OStream.lay_seekp_facts _ _ h1
+    exact (OStream.lay_write_facts _ _ w hnf).1
+  rw [hsho] at hos
+  rw [hos] at hfin
+  have hmid := saveSegments_sticky _ _ _ _ _ _ hfin
+  obtain ⟨-, w2, -, hsec⟩ := saveSections_facts _ _ _ _ _ _ hw1 hmid
+  obtain ⟨-, hgrow⟩ := saveSegments_facts _ _ _ _ _ _ w2 hfin
+  rw [← hos] at hgrow
+  have hti : r.obj.curPos.toInt = (r.obj.curPos.toNat : Int) := by
+    rw [BitVec.toInt_eq_toNat_cond]
+    simp only [Nat.reducePow]
+    split
+    · rfl
+    · omega
+  -- at least one section header record is written at or after the table offset
+  have hcov : ∀ b ∈ r.obj.secs,
+      r.obj.curPos.toNat + (Hdr.e_shentsize o.cls o.enc hdrF).toNat * b.index + (encodeShdr o.cls o.enc b).length ≤
+        r.os.content.length := by
+    intro b hb
+    obtain ⟨g1, g2, -⟩ := hsec b hb
+    rw [hti] at g1 g2
+    have : ((r.obj.curPos.toNat : Int) + Int.ofNat (Hdr.e_shentsize o.cls o.enc hdrF).toNat * Int.ofNat b.index).toNat =
+        r.obj.curPos.toNat + (Hdr.e_shentsize o.cls o.enc hdrF).toNat * b.index := by
+      have : (Int.ofNat (Hdr.e_shentsize o.cls o.enc hdrF).toNat * Int.ofNat b.index) =
+          (((Hdr.e_shentsize o.cls o.enc hdrF).toNat * b.index : Nat) : Int) := by
+        simp [Int.natCast_mul]
+      rw [this]; omega
+    rw [this] at g2
+    omega
+  obtain ⟨hin, -, -, -⟩ := layout_disjoint o os r hdr hs hok hh hn h0 hnw
+  -- some section exists
+  have hex : ∃ b, b ∈ r.obj.secs := by
+    obtain ⟨res, hl, -, -, he⟩ := save_secs_hdr o os r hdr hs hok hh
+    have hn' : (preSave o).secs.length < 65536 := by rw [preSave_length]; exact hn
+    have hl1 := layout_length (preSave o) hdr res hl hnw hn' (preSave_h0 o h0)
+    have hl2 : r.obj.secs.length = res.secs.length := by
+      have := congrArg List.length he; simpa using this
+    have : 0 < r.obj.secs.length := by
+      rw [hl2, hl1, preSave_length]
+      exact List.length_pos_iff.2 hne
+    exact ⟨r.obj.secs[0], List.getElem_mem this⟩
+  obtain ⟨b, hb⟩ := hex
+  have hbase : r.obj.curPos.toNat ≤ r.os.content.length := by
+    have := hcov b hb; omega
+  refine ⟨hbase, ?_, hdrF, hF, hsho, hcov⟩
+  intro k s hk ho
+  have := (hin k s hk ho).2
+  omega
+
+/-! ### nested segments -/
+
+/-- **Members of a nested segment are equidistant too.**  `n` is a segment whose first member had
+    already been generated when its turn came (`segNestedStartB`, e.g. a PT_NOTE or PT_TLS inside a
+    PT_LOAD): it starts at that member's offset.  If every member of `n` is also a member of a
+    selected flat segment `e` (for which `save_segments` holds), the first member `sf` occupies file
+    space and `n.vaddr` is `sf`'s address (writer domain: "a nested segment's vaddr is its first
+    member's address"), then every file-occupying member of `n` is at the same distance from `n`'s
+    start in file and memory. -/
+theorem save_nested_equidistant (o : Obj) (os : OStream) (r : SaveRes) (hdr : Bytes)
+    (hs : save o os = .ok r) (hok : r.ok = true) (hh : o.hdr = some hdr)
+    (hn : o.secs.length < 65536)
+    (h0 : ∀ (i : Nat) (s : SecBuf), o.secs[i]? = some s → s.Occ → s.index ≠ 0)
+    (hnw : layoutNW (preSave o) hdr = true) (hnd : (o.segs.map (·.index)).Nodup)
+    (selE selN : Nat → Bool) (hdom : layoutDomB false false selE (preSave o) hdr = true)
+    (hnest : layoutSelB segNestedStartB selN (preSave o) hdr = true)
+    (e n : Seg) (he : e ∈ r.obj.segs) (hsn : n ∈ r.obj.segs)
+    (hselE : selE e.index = true) (hselN : selN n.index = true)
+    (hsub : ∀ idx ∈ n.secs, idx ∈ e.secs) :
+    ∃ f sf, n.secs.head? = some f ∧ r.obj.secs[f.toNat]? = some sf ∧ n.offset = sf.offset ∧
+      (sf.Occ → n.vaddr = sf.addr →
+        ∀ idx ∈ n.secs, ∀ (s : SecBuf), r.obj.secs[idx.toNat]? = some s → s.Occ →
+          s.offset - n.offset = s.addr - n.vaddr) := by
+  obtain ⟨res, hl, hsegs, -, hmap⟩ := save_secs_hdr o os r hdr hs hok hh
+  have hn' : (preSave o).secs.length < 65536 := by rw [preSave_length]; exact hn
+  have h0' := preSave_h0 o h0
+  have hsn' := hsn
+  rw [hsegs] at hsn'
+  obtain ⟨f, sf', hhead, hsf', hoff⟩ := final_nested_start (preSave o) hdr res hl hnw hn' h0' hnd selN hnest n hsn' hselN
+  -- the same position in the saved object
+  obtain ⟨sf, hsf, hhsf⟩ : ∃ sf, r.obj.secs[f.toNat]? = some sf ∧ hdrOf sf = hdrOf sf' := by
+    have h1 : (r.obj.secs.map hdrOf)[f.toNat]? = some (hdrOf sf') := by
+      rw [hmap, List.getElem?_map, hsf']; rfl
+    rw [List.getElem?_map] at h1
+    cases hq : r.obj.secs[f.toNat]? with
+    | none => rw [hq] at h1; exact nomatch h1
+    | some t0 => rw [hq] at h1; exact ⟨t0, rfl, by simpa using h1⟩
+  simp only [hdrOf, Prod.mk.injEq] at hhsf
+  refine ⟨f, sf, hhead, hsf, by rw [hoff, hhsf.1], ?_⟩
+  intro hfo hva idx hidx s hk ho
+  have hfm : f ∈ n.secs := by
+    cases hq : n.secs with
+    | nil => rw [hq] at hhead; exact nomatch hhead
+    | cons a b => rw [hq] at hhead; simp only [List.head?_cons, Option.some.injEq] at hhead; subst hhead; exact List.mem_cons_self
+  obtain ⟨-, -, fe⟩ := save_segments false false o os r hdr hs hok hh hn h0 hnw hnd selE hdom e he hselE
+  have e1 := (fe idx (hsub idx hidx) s hk).1 ho
+  have e2 := (fe f (hsub f hfm) sf hsf).1 hfo
+  have e3 : n.offset = sf.offset := by rw [hoff, hhsf.1]
+  rw [e3, hva]
+  bv_omega
+
+/-! ### what is not proved -/
+
+/-- NOT PROVED (kept visible): for a *nested* segment (members generated by an enclosing segment)
+    the remaining member clauses — members inside the nested segment's file range, its memory size
+    covering them, `p_offset ≡ p_vaddr (mod p_align)` (needs "the nested alignment divides the
+    enclosing one").  They need the arithmetic of the `wsd_gap_generated` branch (the running sizes
+    are re-derived from the members' offsets).  Proved for nested segments: `save_memsz_ge_filesz`
+    and `save_nested_equidistant`; the correspondence check and the oracle cover the rest. -/
+def NestedSegmentStatement : Prop :=
+  ∀ (o : Obj) (os : OStream) (r : SaveRes) (hdr : Bytes),
+    save o os = .ok r → r.ok = true → o.hdr = some hdr → o.secs.length < 65536 →
+    (∀ (i : Nat) (s : SecBuf), o.secs[i]? = some s → s.Occ → s.index ≠ 0) →
+    layoutNW (preSave o) hdr = true → (o.segs.map (·.index)).Nodup →
+    layoutDomAllB (preSave o) hdr = true →
+    ∀ (selN : Nat → Bool), layoutSelB segNestedStartB selN (preSave o) hdr = true →
+    ∀ n ∈ r.obj.segs, selN n.index = true →
+      ∀ idx ∈ n.secs, ∀ (s : SecBuf), r.obj.secs[idx.toNat]? = some s → s.Occ →
+        n.offset.toNat ≤ s.offset.toNat ∧ s.endN ≤ n.offset.toNat + n.filesz.toNat ∧
+        (s.addr - n.vaddr).toNat + s.size.toNat ≤ n.memsz.toNat
+
+/-! ### concrete objects: non-vacuity, and the F14 witness -/
+
+def exHdr : Bytes := Hdr.create .c64 .lsb 1
+
+/-- null section, `.shstrtab`, `.text` (24 bytes, align 16) and `.data` (explicit address) in one
+    PT_LOAD, a loose symbol-table-like section -/
+def exObj : Obj :=
+  { cls := .c64, enc := .lsb, hdr := some exHdr,
+    secs := [ { SecBuf.fresh .c64 0 with index := 0 },
+              { SecBuf.fresh .c64 3 with index := 1, size := 17, addrAlign := 1 },
+              { SecBuf.fresh .c64 1 with index := 2, size := 24, addrAlign := 16, flags := 6 },
+              { SecBuf.fresh .c64 1 with index := 3, size := 10, addrAlign := 4, flags := 3,
+                                         addr := 0x401040, addrSet := true },
+              { SecBuf.fresh .c64 2 with index := 4, size := 48, addrAlign := 8 } ],
+    segs := [ { stype := 1, vaddr := 0x401000, align := 0x1000, secs := [2, 3], index := 0 } ] }
+
+/-- the layout succeeds and its result satisfies `p` -/
+def layoutIs (o : Obj) (h : Bytes) (p : LayoutRes → Bool) : Bool :=
+  match layoutOf o h with
+  | .ok (some r) => p r
+  | _ => false
+
+/-- the state in which the (only) segment of `exObj` is laid out -/
+def exLay0 : Layout := lay0Of exObj 120
+
+/-- `exObj` meets the hypotheses of `layout_disjoint` -/
+example : exObj.secs.length < 65536 ∧
+    (∀ (i : Nat) (s : SecBuf), exObj.secs[i]? = some s → s.Occ → s.index ≠ 0) ∧
+    layoutNW (preSave exObj) exHdr = true := by
+  refine ⟨by decide, ?_, by decide⟩
+  intro i s hs ho hi
+  have : ∀ t ∈ exObj.secs, t.index = 0 → ¬ t.Occ := by decide
+  exact this s (List.mem_of_getElem? hs) hi ho
+
+/-- … and of the segment theorems, with all side conditions on; the segment starts a fresh run
+    (`64`, `56`, `1`, `120` are `e_phoff`, `e_phentsize`, `e_phnum` and the initial cursor of `exObj`) -/
+example :
+    layoutIs exObj exHdr (fun r => r.pos0 == 120 && Hdr.e_phoff .c64 .lsb r.hdr0 == 64 &&
+      Hdr.e_phentsize .c64 .lsb r.hdr0 == 56 && Hdr.e_phnum .c64 .lsb r.hdr0 == 1 &&
+      r.segs0.map (·.align) == [0x1000]) = true ∧
+    segNW .c64 64 56 1 exLay0 { stype := 1, vaddr := 0x401000, align := 0x1000, secs := [2, 3], index := 0 } = true ∧
+    segDom true true .c64 64 56 1 exLay0 { stype := 1, vaddr := 0x401000, align := 0x1000, secs := [2, 3], index := 0 } = true ∧
+    segFresh exLay0 { stype := 1, vaddr := 0x401000, align := 0x1000, secs := [2, 3], index := 0 } := by
+  refine ⟨by decide, by decide, by decide, by decide, by decide, 2, rfl, by decide⟩
+
+/-- `save exObj` succeeds, and the saved object meets the remaining hypotheses of `file_covers`
+    (table offset below 2^63; full-length header) — and, as the theorem says, the stream reaches it -/
+example : (match save exObj {} with
+    | .ok r => r.ok && decide (r.obj.curPos.toNat < 9223372036854775808) && fitsB exObj.cls r.obj.curPos &&
+        decide (ehdrSize exObj.cls ≤ exHdr.length) && decide (r.obj.curPos.toNat ≤ r.os.content.length)
+    | _ => false) = true := by
+  set_option maxRecDepth 100000 in decide
+
+/-- a PT_LOAD over `.text` and `.note` (explicit addresses) and a nested PT_NOTE over `.note` -/
+def exNested : Obj :=
+  { cls := .c64, enc := .lsb, hdr := some exHdr,
+    secs := [ { SecBuf.fresh .c64 0 with index := 0 },
+              { SecBuf.fresh .c64 3 with index := 1, size := 17, addrAlign := 1 },
+              { SecBuf.fresh .c64 1 with index := 2, size := 24, addrAlign := 16, flags := 6,
+                                         addr := 0x401000, addrSet := true },
+              { SecBuf.fresh .c64 7 with index := 3, size := 10, addrAlign := 4, flags := 2,
+                                         addr := 0x401020, addrSet := true } ],
+    segs := [ { stype := 1, vaddr := 0x401000, align := 0x1000, secs := [2, 3], index := 0 },
+              { stype := 4, vaddr := 0x401020, align := 4, secs := [3], index := 1 } ] }
+
+/-- `exNested` meets the hypotheses of `save_nested_equidistant` (enclosing segment 0, nested
+    segment 1), of `save_memsz_ge_filesz`, and its nested PT_NOTE ends up at `.note`'s offset with
+    `.note`'s address -/
+example :
+    layoutNW (preSave exNested) exHdr = true ∧ (exNested.segs.map (·.index)).Nodup ∧
+    layoutDomB false false (fun i => i == 0) (preSave exNested) exHdr = true ∧
+    layoutSelB segNestedStartB (fun i => i == 1) (preSave exNested) exHdr = true ∧
+    layoutDomAllB (preSave exNested) exHdr = true ∧
+    layoutIs (preSave exNested) exHdr (fun r =>
+      r.segs.map (fun g => (g.offset, g.filesz, g.memsz)) == [(0x1000, 42, 42), (0x1020, 10, 10)] &&
+      r.secs.map (·.offset) == [0, 0x102a, 0x1000, 0x1020]) = true := by
+  refine ⟨by decide, by decide, by decide, by decide, by decide, by decide⟩
+
+/-- F14: a PT_LOAD whose only member is a NOBITS section with the *explicit* address `vaddr + 0x24` -/
+def f14Obj : Obj :=
+  { cls := .c64, enc := .lsb, hdr := some exHdr,
+    secs := [ { SecBuf.fresh .c64 0 with index := 0 },
+              { SecBuf.fresh .c64 3 with index := 1, size := 11, addrAlign := 1 },
+              { SecBuf.fresh .c64 8 with index := 2, size := 0x12, addrAlign := 1, flags := 3,
+                                         addr := 0x400024, addrSet := true } ],
+    segs := [ { stype := 1, vaddr := 0x400000, align := 0x1000, secs := [2], index := 0 } ] }
+
+/-- does the memory size of every segment cover its SHF_ALLOC members? -/
+def coversAll (res : LayoutRes) : Bool :=
+  res.segs.all fun g => g.secs.all fun idx =>
+    match res.secs[idx.toNat]? with
+    | some s => (s.flags &&& 2 != 2) || decide ((s.addr - g.vaddr).toNat + s.size.toNat ≤ g.memsz.toNat)
+    | none => true
+
+/-- **F14, machine-checked**: `f14Obj` satisfies every hypothesis of `memsz_covers` except the side
+    condition `cov` (`segDom false …` holds, `segDom true …` does not), its layout succeeds without
+    wrap-around, and the resulting `p_memsz = 0x12` does not cover the member, which ends at
+    `vaddr + 0x36`.  (The well laid out `exObj` is covered.) -/
+theorem memsz_witness :
+    layoutNW f14Obj exHdr = true ∧
+    layoutIs f14Obj exHdr (fun r => !coversAll r) = true ∧
+    layoutIs f14Obj exHdr (fun r => r.segs.map (·.memsz) == [0x12#64]) = true ∧
+    segDom false true .c64 64 56 1 (lay0Of f14Obj 120)
+      { stype := 1, vaddr := 0x400000, align := 0x1000, secs := [2], index := 0 } = true ∧
+    segDom true true .c64 64 56 1 (lay0Of f14Obj 120)
+      { stype := 1, vaddr := 0x400000, align := 0x1000, secs := [2], index := 0 } = false ∧
+    layoutIs exObj exHdr coversAll = true := by
+  decide
+
 end ElfioVerif.C04
